@@ -82,7 +82,7 @@ def arr_valfn(arr):
             else:
                 full.append(a[1] + to_pw(idx[k]))
                 k += 1
-        v = arr.alloc.valfn(tuple(full))
+        v = base(tuple(full))
         if part is not None:
             raise Unsupported("content of a real/imag part")
         return v
@@ -319,6 +319,7 @@ class ExtLib:
 
     def scalar_op(self, name, vals):
         I = self.I
+        vals = [int(v) if isinstance(v, bool) else v for v in vals]
         if name in ("add", "sub", "mul", "div", "pow", "floordiv", "mod"):
             astname = {"add": "Add", "sub": "Sub", "mul": "Mult", "div": "Div", "pow": "Pow",
                        "floordiv": "FloorDiv", "mod": "Mod"}[name]
@@ -329,6 +330,15 @@ class ExtLib:
             return poly.fn("abs", to_pw(vals[0]))
         if name in ("sqrt", "log", "sin", "cos", "exp", "floor"):
             return poly.fn(name, to_pw(vals[0]))
+        if name in ("eq", "ne", "lt", "le", "gt", "ge"):
+            a, b = to_pw(vals[0]), to_pw(vals[1])
+            d = a - b
+            if not d.is_leaf():
+                raise Unsupported("comparison of piecewise contents")
+            op = {"lt": "<", "le": "<=", "gt": ">", "ge": ">="}.get(name)
+            if op is None:
+                raise Unsupported("equality comparison content")
+            return PW.ite(Cond(d.leaf, op), pconst(1), pconst(0))
         if name in ("minimum", "maximum"):
             a, b = to_pw(vals[0]), to_pw(vals[1])
             d = a - b
@@ -371,7 +381,7 @@ class ExtLib:
             else:
                 fns.append((o, None))
         valfn = None
-        if ok and name not in ("eq", "ne", "lt", "le", "gt", "ge"):
+        if ok and name not in ("eq", "ne"):
             def valfn(idx, fns=fns, name=name, shape=shape):
                 vals = []
                 for o, f in fns:
@@ -496,6 +506,15 @@ class ExtLib:
     def reshape(self, arr, shape, node, ms):
         shape = tuple(simplify_scalar(s) for s in shape)
         old = arr.shape
+        if any(isinstance(s, int) and s == -1 for s in shape):
+            tot = pconst(1)
+            for d in old:
+                tot = tot * to_pw(d)
+            rest = pconst(1)
+            for d in shape:
+                if not (isinstance(d, int) and d == -1):
+                    rest = rest * to_pw(d)
+            shape = tuple(simplify_scalar(tot / rest) if (isinstance(d, int) and d == -1) else d for d in shape)
         f = arr_valfn(arr)
         valfn = None
         # recognise insertion/removal of unit axes
@@ -698,7 +717,7 @@ class ExtLib:
         if axis is None:
             self.I.trace.append(Op("NumpyOp", fn="sum_all", reads=[v], out=None, meta={}, where=self.I.where(n, ms),
                                    stack=tuple(self.I.call_stack), args=[v]))
-            return psym("sum(%s)" % v.alloc.label)
+            return SumAll(v, pconst(1))
         axis = simplify_scalar(axis)
         if axis < 0:
             axis += v.ndim
@@ -724,6 +743,9 @@ class ExtLib:
         return s
 
     c_numpy_max = c_numpy_amax
+
+    def c_numpy_ascontiguousarray(self, a, k, n, ms):
+        return a[0]
 
     def c_numpy_finfo(self, a, k, n, ms):
         return Opaque("finfo", a[0])
@@ -940,6 +962,21 @@ class ExtLib:
         self.I.trace.append(Op("FFT", plan=plan, inp=inp, out=out, direction=plan.direction,
                                where=self.I.where(node, ms), stack=tuple(self.I.call_stack), node=node))
         return out
+
+
+class SumAll:
+    """np.sum(array) * factor, kept structured (gather kernels of the grid communicators)"""
+
+    def __init__(self, arr, factor):
+        self.arr, self.factor = arr, factor
+
+    def __mul__(self, o):
+        return SumAll(self.arr, self.factor * to_pw(o))
+
+    __rmul__ = __mul__
+
+    def __repr__(self):
+        return "sum(%s) * %r" % (self.arr.describe(), self.factor)
 
 
 class MinMax:
